@@ -37,7 +37,7 @@ let spec input obs_s =
     let verdict = ref "OK" in
     let fail c d = if !verdict = "OK" then verdict := "FAIL " ^ c ^ " " ^ d in
     let n_contra = ref 0 and n_forb = ref 0 and n_adv = ref 0 and n_adopt = ref 0 in
-    let caveat = ref false and n_conv = ref 0 in
+    let caveat = ref false and n_conv = ref 0 and n_promoted = ref 0 in
     let stored_final = Hashtbl.create 64 in
     Stdlib.List.iter (fun (i, _, _, _, _) -> Hashtbl.replace stored_final i ()) o.rows;
     (* R1, R2 *)
@@ -158,7 +158,14 @@ let spec input obs_s =
                if Stdlib.List.exists (fun (q, _, _) -> q = p) gs then fail "request-after-checkpoint-mismatch" e.label
              end
            | `None ->
-             if active && linear_on_tip && Stdlib.List.exists matches e.batch then begin
+             (* a clean batch that holds the header matching the expected checkpoint advances the cursor: when the batch extends
+                the tip header by header, and (default engine, which counts the matching header whatever its state on arrival)
+                also when the matching header arrives beside the tip - e.g. as a STALE sibling of a contained contradicting
+                header - and is on the longest chain once the batch has been handled (its child won the reorganisation) *)
+             let promoted = (not is_x) && (let anc = ancestors (tip_of e.state) in
+                                           Stdlib.List.exists (fun i -> matches i && Stdlib.List.mem i anc) e.batch) in
+             if active && ((linear_on_tip && Stdlib.List.exists matches e.batch) || promoted) then begin
+               if promoted && not linear_on_tip then incr n_promoted;
                let nh_after = next_of e.state in
                incr n_adv;
                if not (SyncSpec.spec_advance cps (z_of_int nh) (z_of_int nh_after)) then
@@ -233,6 +240,6 @@ let spec input obs_s =
                                                     (Stdlib.String.concat "," (Stdlib.List.map (fun (q, _) -> string_of_int q) honest)))
       end
     end;
-    if !verdict = "OK" then Printf.sprintf "OK forbidden-deliveries=%d contradictions=%d advances=%d adoptions-refused=%d converged-after-containment=%d" !n_forb !n_contra !n_adv !n_adopt !n_conv else !verdict
+    if !verdict = "OK" then Printf.sprintf "OK forbidden-deliveries=%d contradictions=%d advances=%d adoptions-refused=%d converged-after-containment=%d advances-by-promoted-checkpoint-header=%d" !n_forb !n_contra !n_adv !n_adopt !n_conv !n_promoted else !verdict
 
 let () = run_driver model spec
